@@ -49,6 +49,10 @@ def frames():
         # without any object inside binning E
         sel = (df["pid"] == 1) & (df["z"] < 0.5)
         df.loc[sel, "z"] = 0.55 + 0.9 * df.loc[sel, "z"]
+        # ... and none exactly on an INNER edge of any binning, while it keeps those on the outermost edge 1.0: a patch for
+        # which only the outer edges tell the closed sides apart (patch 0 keeps objects on every edge)
+        inner = (df["pid"] == 1) & df["z"].isin([0.3, 0.4, 0.55, 0.7, 0.8, 0.85])
+        df.loc[inner, "z"] = df.loc[inner, "z"] + 0.013
         return df
 
     new = high_z_patch1(edgy(data.frame(21, 60, NPATCH, sep_deg=3.0, spread_deg=1.6, int_weights=True)))
